@@ -256,7 +256,8 @@ fn cmd_sim(a: &Args) -> i32 {
                     if want_traces && !erased {
                         trace_lines.push(format!("{prof} {seed} {pert} {h:016x} {}", tr.len()));
                     }
-                    let relevant = |clause: &str| prop == "all" || clause.starts_with(prop.as_str()) || (prop == "C12" && crashed_here);
+                    // an in-actor ask that ends in an unjustified deadlock panic has neither returned Ok nor Err: also a C03 matter
+                    let relevant = |clause: &str| prop == "all" || clause.starts_with(prop.as_str()) || (prop == "C12" && crashed_here) || (prop == "C03" && clause == "C15.sound");
                     for v in &f.viol {
                         let p = &v.clause[..3];
                         let mut vp = p.to_string();
@@ -268,6 +269,9 @@ fn cmd_sim(a: &Args) -> i32 {
                                 continue;
                             }
                             vp = "C12".to_string();
+                        }
+                        if prop == "C03" && v.clause == "C15.sound" {
+                            vp = "C03".to_string();
                         }
                         if relevant(v.clause) {
                             viols.push(VOut {
